@@ -19,6 +19,22 @@ func FindGitRepo(dirs ...string) (string, error) {
 		return "", errors.New("no directories provided")
 	}
 
+	// the search for a repository walks up the directory hierarchy by shortening the
+	// path, which only an absolute path allows: the parent of "../x" is "..", whose
+	// parent is "." (the working directory), which no relative path gets above
+	absDirs := make([]string, len(dirs))
+
+	for i, dir := range dirs {
+		abs, err := filepath.Abs(dir)
+		if err != nil {
+			return "", fmt.Errorf("failed to get absolute path for %s: %w", dir, err)
+		}
+
+		absDirs[i] = abs
+	}
+
+	dirs = absDirs
+
 	var commonRepoPath string
 
 	for i, dir := range dirs {
